@@ -81,7 +81,9 @@ def model_part(ctx, pid):
         runs += [('chain2', False, False, False), ('fan2', False, False, False), ('chain2', False, False, True), ('fan2', False, False, True),
                  ('chain2', True, False, False), ('fan2', True, False, False),
                  # a disabled step feeding another; a step stopped by another's success
-                 ('dis2', False, False, False), ('dis2', False, False, True), ('stop2', False, False, False), ('stop2', False, False, True)]
+                 ('dis2', False, False, False), ('dis2', False, False, True), ('stop2', False, False, False), ('stop2', False, False, True),
+                 # a loop step alone and behind a plugin step, with cancellation
+                 ('loop1', True, False, False), ('loop1', True, False, True), ('loop2', True, False, False), ('loop2', True, False, True)]
     for family, cancel, live, split in runs:
         ok, viol, st, out = run_one(ctx, family, inv, cancel, liveness=live, split=split)
         ctx.cov(states=st.get('distinct', 0), transitions=st.get('generated', 0))
@@ -200,26 +202,27 @@ def validate_events(evs, family, work, name, keep=False, custom=None, silent_can
 
 
 GEN_PROFILE = dict(max_steps=4, p_tag=0.0, p_enabled=0.3, p_stop=0.35, p_waitfor=0.3, p_deployexpr=0.2, p_sum=0.4, p_multi=0.7, p_error=0.2, p_alt=0.15,
-                   p_crash=0.1, p_deployfail=0.1, engine_outputs=True)
+                   p_crash=0.1, p_deployfail=0.1, engine_outputs=True, p_loop=0.3)
 
 
 def generated_scenarios(rng, n):
     """generated workflows inside the fragment Engine.tla models (Family = "custom"): plugin steps, literal and plain
-    reference inputs, wait_for, deploy-time expressions, enabled (true and false), stop_if, several outputs; random outcomes, noise, cancellation"""
+    reference inputs, wait_for, deploy-time expressions, enabled (true and false), stop_if, loop steps over a scripted sub-workflow, several outputs; random outcomes, noise, cancellation"""
     out = []
     tries = 0
     while len(out) < n and tries < 40 * n + 40:
         tries += 1
         wf, oc, script, inp = gen.gen_workflow(rng, GEN_PROFILE)
+        subwfs = wf.pop('_subwfs', None)
         cu = strict.custom_of(wf, oc)
         if cu is None:
             continue
         cancel = rng.choice([None, None, None, 5, 20, 60])
         sch = gen.noise_schedule(rng, max_us=rng.choice([200, 1500])) if rng.random() < 0.7 else None
-        sc = gen.make_scenario(wf, script, inp, sch, timeout_ms=30000)
+        sc = gen.make_scenario(wf, script, inp, sch, subwfs=subwfs, timeout_ms=30000)
         if cancel is not None:
             sc['runs'] = [{'input': inp, 'cancel_after_ms': cancel}]
-        out.append(('custom', 'generated workflow with %d steps, cancel=%s' % (len(cu['steps']), cancel), sc, cu))
+        out.append(('custom', 'generated workflow with %d steps%s, cancel=%s' % (len(cu['steps']), ' (one a loop)' if subwfs else '', cancel), sc, cu))
     return out
 
 
